@@ -21,6 +21,8 @@ type Replay struct {
 	Book     []rh.BOp          `json:"book,omitempty"`
 	MaxConns int               `json:"max_conns,omitempty"`
 	ET       *rh.ETScenario    `json:"exit_transit,omitempty"`
+	OR       *rh.ORScenario    `json:"open_race,omitempty"`
+	TD       *rh.TDScenario    `json:"teardown,omitempty"`
 }
 
 // ---------------------------------------------------------------------------
@@ -549,6 +551,7 @@ func main() {
 		}
 	}
 	var etReplay *rh.ETScenario
+	var orReplay *rh.ORScenario
 	if c.Replay != "" {
 		var rp Replay
 		if err := c.ReadReplay(&rp); err != nil {
@@ -556,6 +559,8 @@ func main() {
 		}
 		if rp.Kind == "exittransit" {
 			etReplay = rp.ET
+		} else if rp.Kind == "openrace" {
+			orReplay = rp.OR
 		} else {
 			runOne(rp)
 		}
@@ -622,6 +627,29 @@ func main() {
 		}
 	} else if etReplay != nil {
 		runET(*etReplay)
+	}
+	// races around the forwarding of an OPEN (gated write to the next hop)
+	runOR := func(sc rh.ORScenario) {
+		rp := Replay{Kind: "openrace", Name: fmt.Sprintf("open-race fam=%d %s", sc.Fam, sc.Kind), OR: &sc}
+		var o rh.ORObs
+		var err error
+		if p := vh.Recover(func() { o, err = rh.RunOpenRace(sc) }); p != "" || err != nil {
+			c.Fail("panic", fmt.Sprintf("%s: %s %v", rp.Name, p, err), rp)
+			return
+		}
+		c.Count("open-race:" + sc.Kind)
+		c.Case(rp.Name, true, rp)
+		iso, _ := rh.CheckOpenRace(sc, o)
+		for _, d := range iso {
+			c.Fail("open-forwarding-race", rp.Name+": "+d, rp)
+		}
+	}
+	if c.Replay == "" {
+		for _, sc := range rh.AllOpenRaces() {
+			runOR(sc)
+		}
+	} else if orReplay != nil {
+		runOR(*orReplay)
 	}
 	var sb strings.Builder
 	sb.WriteString("From Coq Require Import List NArith ZArith Bool.\nFrom MM Require Import Model.Relay Model.ExitBook.\nImport ListNotations.\nLocal Open Scope N_scope.\n")
